@@ -11,6 +11,7 @@ func runExtract(repo, outDir, factsFile string) {
 	os.MkdirAll(outDir, 0755)
 	writePathGrammar(repo, outDir)
 	writePipeline(repo, outDir, facts)
+	writeMilestones(repo, outDir, facts)
 	writeCliFacts(repo, outDir, facts)
 	writeInventories(repo, outDir, facts)
 	kw, bi, deny := engineTables()
